@@ -1,6 +1,7 @@
 package main
 
 import (
+	"container/heap"
 	"time"
 	"os"
 	"fmt"
@@ -415,44 +416,55 @@ func (e *Engine) fail(st *State, kind, msg string) {
 // States of one activation are scheduled in reverse post-order of the CFG and merged when they meet at a
 // join block (right after its phis), so sequences of guarded early returns stay linear instead of exponential.
 func (e *Engine) explore(start *State, baseDepth int) (done []*State) {
-	work := []*State{start}
-	key := func(s *State) (int, int) {
+	// The waiting states are kept in a heap ordered by (reverse post-order index of the block, instruction, arrival):
+	// the position of a waiting state does not change, so its key is computed once. (A linear scan per step made the
+	// scheduler quadratic in the number of waiting states: 45% of the engine's time on a C18 thorough job.)
+	var work workHeap
+	seq := 0
+	splits := map[string]int{}
+	push := func(s *State) {
 		fr := s.top()
-		return e.rpoIndex(fr.block), fr.ip
+		seq++
+		heap.Push(&work, workItem{st: s, rpo: e.rpoIndex(fr.block), ip: fr.ip, seq: seq})
+		splits[s.split]++
 	}
-	for len(work) > 0 {
-		// pick the earliest state in reverse post-order
-		best := 0
-		for i := 1; i < len(work); i++ {
-			bi, bp := key(work[best])
-			ci, cp := key(work[i])
-			if ci < bi || (ci == bi && cp < bp) {
-				best = i
-			}
-		}
-		st := work[best]
-		work = append(work[:best], work[best+1:]...)
+	pop := func() workItem {
+		it := heap.Pop(&work).(workItem)
+		splits[it.st.split]--
+		return it
+	}
+	push(start)
+	for work.Len() > 0 {
+		// the earliest state in reverse post-order (ties: arrival order)
+		first0 := pop()
+		st := first0.st
 		// merge with every other state waiting at the same join
 		if !e.NoJoinMerge && len(st.frames) == baseDepth+1 && atJoin(st) {
-			for i := 0; i < len(work); {
-				o := work[i]
+			var back []workItem
+			for work.Len() > 0 && work[0].rpo == first0.rpo && work[0].ip == first0.ip {
+				it := pop()
+				o := it.st
 				if len(o.frames) == baseDepth+1 && o.top().block == st.top().block && o.top().ip == st.top().ip && e.shapeSig(o) == e.shapeSig(st) {
 					if m, ok := e.mergeAtJoin(st, o); ok {
 						e.JoinMerges++
 						st = m
-						work = append(work[:i], work[i+1:]...)
 						continue
 					}
 					e.JoinMergeFails++
 				}
-				i++
+				back = append(back, it)
+			}
+			for _, it := range back {
+				heap.Push(&work, it) // keeps its arrival number
+				splits[it.st.split]++
 			}
 		}
 		first := true
 		for !st.dead && len(st.frames) > baseDepth {
-			if !first && len(st.frames) == baseDepth+1 && atJoin(st) && mergeCandidate(work, st) {
-				// wait here: others may still arrive at this join
-				work = append(work, st)
+			if !first && len(st.frames) == baseDepth+1 && atJoin(st) && splits[st.split] > 0 {
+				// wait here: others (with the same case-split key) may still arrive at this join. A state whose key is
+				// unique runs on without waiting, which keeps the incremental solver's assertion stack on one path.
+				push(st)
 				st = nil
 				break
 			}
@@ -469,10 +481,12 @@ func (e *Engine) explore(start *State, baseDepth int) (done []*State) {
 				fmt.Fprintf(os.Stderr, "FORK %d at %s\n", len(forks), dbgWhere)
 			}
 			if len(forks) > 0 {
-				work = append(work, forks...)
+				for _, f := range forks {
+					push(f)
+				}
 				if len(st.frames) == baseDepth+1 && !st.dead {
 					// re-schedule so that the earliest state runs first
-					work = append(work, st)
+					push(st)
 					st = nil
 					break
 				}
@@ -484,23 +498,38 @@ func (e *Engine) explore(start *State, baseDepth int) (done []*State) {
 		if !st.dead {
 			done = append(done, st)
 		}
-		if len(done)+len(work) > e.MaxPaths {
+		if len(done)+work.Len() > e.MaxPaths {
 			panic("path budget exceeded")
 		}
 	}
 	return done
 }
 
-// mergeCandidate reports whether some waiting state could still be merged with st at a join: same case-split key
-// (verifConcretize). A state whose key is unique runs on without waiting, which keeps the incremental solver's
-// assertion stack on one path instead of switching between hundreds of unmergeable siblings at every loop header.
-func mergeCandidate(work []*State, st *State) bool {
-	for _, o := range work {
-		if o.split == st.split {
-			return true
-		}
+type workItem struct {
+	st           *State
+	rpo, ip, seq int
+}
+
+type workHeap []workItem
+
+func (h workHeap) Len() int { return len(h) }
+func (h workHeap) Less(i, j int) bool {
+	if h[i].rpo != h[j].rpo {
+		return h[i].rpo < h[j].rpo
 	}
-	return false
+	if h[i].ip != h[j].ip {
+		return h[i].ip < h[j].ip
+	}
+	return h[i].seq < h[j].seq
+}
+func (h workHeap) Swap(i, j int) { h[i], h[j] = h[j], h[i] }
+func (h *workHeap) Push(x any)   { *h = append(*h, x.(workItem)) }
+func (h *workHeap) Pop() any {
+	old := *h
+	n := len(old)
+	x := old[n-1]
+	*h = old[:n-1]
+	return x
 }
 
 func (e *Engine) stepSafe(st *State) (forks []*State) {
